@@ -3,7 +3,7 @@ import json, random
 from vlib import *
 import fam_api as fa
 
-LOGINS = ["ok", "refuse", "noidtoken", "badsig", "wrongiss", "subissuer", "issuerslash", "wrongaud", "expired", "expired-just", "nousername", "manyclaims", "laterclaims"]
+LOGINS = ["ok", "refuse", "noidtoken", "badsig", "wrongiss", "subissuer", "issuerslash", "wrongaud", "noaud", "emptyaud", "expired", "expired-just", "nousername", "manyclaims", "laterclaims"]
 
 
 def base(store="cookie", sel="roundrobin", hosts=None, split=False):
